@@ -341,6 +341,9 @@ func (e *Exec) quiesce(g *Goroutine) {
 			case gRunnable:
 				return false
 			case gBlocked:
+				if x.dormant {
+					return false // released once nothing else can run
+				}
 				if x.quiescing {
 					continue
 				}
